@@ -18,6 +18,22 @@ open OpenFGAVerif.BoolSys OpenFGAVerif.Dfs OpenFGAVerif.CheckV1
 def SemDef (w : World) (I : Interp Node) : Prop := HoldsD (sysOf w) I [] (rootExpr w)
 def SemPoss (w : World) (I : Interp Node) : Prop := HoldsP (sysOf w) I [] (rootExpr w)
 
+/-- evaluation against the empty executable cache is evaluation without cache -/
+theorem eval_noCache {N : Type} {sys : Sys N} {maxDepth d : Nat} {V : List N} {e : Expr N} {o : Out}
+    (h : Eval sys (fun n b => (noCache : N → Option Bool) n = some b) maxDepth d V e o) :
+    Eval sys noFacts maxDepth d V e o := by
+  induction h with
+  | abort e => exact .abort e
+  | lit v => exact .lit v
+  | node_hit _ _ _ hf => simp [noCache] at hf
+  | node_depth dispatch n h => exact .node_depth dispatch n h
+  | node_cycle dispatch n h hm => exact .node_cycle dispatch n h hm
+  | node_eval dispatch n o h hm _ ih => exact .node_eval dispatch n o h hm ih
+  | or es outs arr hl _ hp ih => exact .or es outs arr hl ih hp
+  | and es outs arr hl _ hp ih => exact .and es outs arr hl ih hp
+  | diff b s ob os bf _ _ ihb ihs => exact .diff b s ob os bf ihb ihs
+  | diff_ideal b s ob os bf _ _ ihb ihs => exact .diff_ideal b s ob os bf ihb ihs
+
 /-- **C01, every schedule.** Whatever order the goroutines deliver results in, an untainted decision of
 the engine is the semantics: `allowed = true` ⇒ the relation definitely holds, `allowed = false` ⇒ it
 does not even possibly hold (so an unevaluable condition never yields `true`, and `false` is only
@@ -25,28 +41,29 @@ returned when the rest of the expression decides).  Errors (depth limit, conditi
 claim nothing. -/
 theorem check_sound_all_schedules (w : World) (I : Interp Node) (hc : Coherent (sysOf w) I)
     (maxDepth : Nat) (a c : Bool)
-    (h : Eval (sysOf w) maxDepth 0 [] (rootExpr w) (.ok a c false)) :
+    (h : Eval (sysOf w) noFacts maxDepth 0 [] (rootExpr w) (.ok a c false)) :
     (a = true → SemDef w I) ∧ (a = false → ¬ SemPoss w I) :=
-  eval_root_sound (sysOf w) I hc h
+  eval_root_sound (sysOf w) I hc (fun _ _ h => h.elim) h
 
 /-- the executable model used in the correspondence is one of those schedules -/
 theorem check_sound (w : World) (I : Interp Node) (hc : Coherent (sysOf w) I)
-    (maxDepth fuel : Nat) (sc : Sched) (a c : Bool) (h : check w maxDepth sc fuel = .ok a c false) :
+    (maxDepth fuel : Nat) (sc : Sched) (a c : Bool) (h : check w maxDepth sc fuel noCache = .ok a c false) :
     (a = true → SemDef w I) ∧ (a = false → ¬ SemPoss w I) := by
   apply check_sound_all_schedules w I hc maxDepth a c
-  have := evalF_eval (sysOf w) maxDepth sc fuel 0 [] (rootExpr w)
+  have := evalF_eval (sysOf w) maxDepth sc noCache fuel 0 [] (rootExpr w)
   unfold check at h
   rw [h] at this
-  exact this
+  exact eval_noCache this
 
 /-- The reference oracle of the driver (exact three-valued edges, subtract operands on a fresh path):
 its untainted answers are the semantics of the reference rules. -/
 theorem oracle_sound (w : World) (I : Interp Node) (hc : Coherent (idealSys w) I)
     (maxDepth fuel : Nat) (a c : Bool)
-    (h : evalF (idealSys w) maxDepth { ideal := true } fuel 0 [] (rootExpr w) = .ok a c false) :
+    (h : evalF (idealSys w) maxDepth { ideal := true } noCache fuel 0 [] (rootExpr w) = .ok a c false) :
     (a = true → HoldsD (idealSys w) I [] (rootExpr w)) ∧ (a = false → ¬ HoldsP (idealSys w) I [] (rootExpr w)) := by
-  apply eval_root_sound (idealSys w) I hc (maxDepth := maxDepth) (c := c)
-  have := evalF_eval (idealSys w) maxDepth { ideal := true } fuel 0 [] (rootExpr w)
+  apply eval_root_sound (idealSys w) I hc (facts := fun n b => noCache n = some b) (fun _ _ h => by simp [noCache] at h)
+    (maxDepth := maxDepth) (c := c)
+  have := evalF_eval (idealSys w) maxDepth { ideal := true } noCache fuel 0 [] (rootExpr w)
   rw [h] at this
   exact this
 
@@ -56,8 +73,8 @@ strategy). -/
 theorem decisions_agree (w : World) (I : Interp Node) (hc : Coherent (sysOf w) I)
     (hcons : ∀ s, I.negD s → I.negP s)
     (d1 d2 : Nat) (a1 c1 a2 c2 : Bool)
-    (h1 : Eval (sysOf w) d1 0 [] (rootExpr w) (.ok a1 c1 false))
-    (h2 : Eval (sysOf w) d2 0 [] (rootExpr w) (.ok a2 c2 false)) : a1 = a2 := by
+    (h1 : Eval (sysOf w) noFacts d1 0 [] (rootExpr w) (.ok a1 c1 false))
+    (h2 : Eval (sysOf w) noFacts d2 0 [] (rootExpr w) (.ok a2 c2 false)) : a1 = a2 := by
   have s1 := check_sound_all_schedules w I hc d1 a1 c1 h1
   have s2 := check_sound_all_schedules w I hc d2 a2 c2 h2
   have dp : SemDef w I → SemPoss w I := by
@@ -83,7 +100,7 @@ The full statement — *every* decision, tainted or not, is the semantics — do
 /-- the full-strength statement -/
 def C01_Full : Prop :=
   ∀ (w : World) (I : Interp Node), Coherent (sysOf w) I → ∀ (maxDepth : Nat) (a c t : Bool),
-    Eval (sysOf w) maxDepth 0 [] (rootExpr w) (.ok a c t) →
+    Eval (sysOf w) noFacts maxDepth 0 [] (rootExpr w) (.ok a c t) →
     (a = true → SemDef w I) ∧ (a = false → ¬ SemPoss w I)
 
 /-- F1 at the reducer: base `true`, subtracted operand `false` *with the cycle flag* ⇒ the code denies
@@ -154,9 +171,9 @@ theorem tie_depth_bookkeeping :
 negations are read off the semantics is coherent — here built explicitly. -/
 def toySys : Sys Nat := { rule := fun n => if n = 0 then .or [.lit .tt, .node true 1] else .lit .ff }
 
-example : Eval toySys 25 0 [] (.node false 0) (.ok true false false) := by
+example : Eval toySys noFacts 25 0 [] (.node false 0) (.ok true false false) := by
   refine .node_eval false 0 _ (by decide) (by simp) ?_
-  show Eval toySys 25 0 [0] (.or [.lit .tt, .node true 1]) (unionR [.ok true false false, .ok false false false])
+  show Eval toySys noFacts 25 0 [0] (.or [.lit .tt, .node true 1]) (unionR [.ok true false false, .ok false false false])
   refine .or _ [.ok true false false, .ok false false false] _ rfl ?_ (List.Perm.refl _)
   intro i h1 h2
   match i, h1, h2 with
